@@ -132,7 +132,7 @@ fn pipeline(t: &mut Tape, ctx: &mut Ctx) -> CheckResult {
             break; // keep sizes bounded
         }
         let mut what: String;
-        match if ctx.medium && t.chance(1, 4) { 14 } else { t.choice(17) } {
+        match if ctx.medium && t.chance(1, 4) { 14 } else { t.choice(18) } {
             0 => {
                 let tl = type_list(t, al, 3);
                 let g = gen::diagram_with_boundary(t, &sz, al, &b, &tl, ctx);
@@ -195,6 +195,26 @@ fn pipeline(t: &mut Tape, ctx: &mut Ctx) -> CheckResult {
                     a = optic_type(&o, &a);
                     b = optic_type(&o, &b);
                 }
+            }
+            17 => {
+                // forgetting variable hyperedges: some hyperedges are relabelled as variables first
+                // (uniform ones are replaced by a merged node, mixed ones must be left alone)
+                use open_hypergraphs::lax::var::forget::{forget, forget_monogamous};
+                let mut d = cur_d.clone();
+                let ne = d.edges.len();
+                let picked: Vec<usize> = if ne == 0 { vec![] } else { (0..t.range(0, 2)).map(|_| t.choice(ne)).collect() };
+                for &i in &picked {
+                    d.edges[i].label = crate::labels::VAR;
+                }
+                let mono = t.chance(1, 3);
+                what = format!("lax: edges {:?} relabelled as variables ; {}", picked, if mono { "forget_monogamous" } else { "forget" });
+                ctx.set_dump(format!("{log}\n  {what}"));
+                let l = to_lax_d(&d);
+                let mut img = if mono { forget_monogamous(&l) } else { forget(&l) };
+                from_lax(&img).map_err(|e| ctx.fail("output-well-formed", format!("{what}: {e}")))?;
+                img.quotient().map_err(|_| ctx.fail("output-well-formed", "the result of forget cannot be quotiented"))?;
+                cur = img.to_strict();
+                // the type is preserved: a, b unchanged
             }
             16 => {
                 // the lax optic entry points (residuals must be a function of the label there)
